@@ -656,10 +656,10 @@ def _nuset(w):
     return sum(1 if e["kind"] == "sp" else 6 for e in w["entries"])
 
 
-def _rbe3_case(rng, w):
+def _rbe3_case(rng, w, idx=None):
     """choose dependent / independent DOF for a plain world (Ind_List order is not the uset order); -> dict"""
     ents = w["entries"]
-    idx = list(range(len(ents)))
+    idx = list(range(len(ents))) if idx is None else list(idx)
     dep = rng.choice(idx)
     others = [i for i in idx if i != dep]
     rng.shuffle(others)
@@ -688,7 +688,8 @@ def _rbe3_ref(w, case):
     inside the conditioning domain and by the oracle; never the Lean model."""
     ents = w["entries"]
     infos = _ref_resolve(w["cs"])
-    locs = [infos[e["cin"]][1] + infos[e["cin"]][2] @ _to_rect(infos[e["cin"]][0], e["xyz"]) for e in ents]
+    locs = [infos[e["cin"]][1] + infos[e["cin"]][2] @ _to_rect(infos[e["cin"]][0], e["xyz"])
+            if e["kind"] == "grid" else None for e in ents]
     pdep = locs[case["dep"]]
     indlist = []  # Ind_List order
     for d, wt, grp in case["groups"]:
@@ -870,6 +871,141 @@ def _cmp_rbe3(rep, got, inp):
     sc = max(1.0, float(np.max(np.abs(model))) if model.size else 1.0) * 10
     ok, err = _close(got, model, sc)
     return None if ok else (got.tolist(), model.tolist())
+
+
+W_KINDS = ("plain", "um-indep", "um-dep", "um-mixed", "um-first-ind", "um-first-dep", "um-size",
+           "ind-not-in-table", "spoint-ind", "digit-gt-6", "dep-digit-0", "um-not-in-table")
+
+
+def _with_bystanders(rng, w):
+    """insert scalar points, q-set grids and ordinary grids that take no part in the element at random places of
+    the table (they shift the uset rows and must be dropped by the partition); -> (world, participant indices)"""
+    ents = [dict(e, part=True) for e in w["entries"]]
+    used = {e["id"] for e in ents}
+    N = len(w["cs"])
+    for _ in range(rng.randint(1, 4)):
+        while True:
+            gid = rng.randint(1, 5000)
+            if gid not in used:
+                used.add(gid)
+                break
+        r = rng.random()
+        if r < 0.4:
+            e = {"kind": "sp", "id": gid, "nasset": rng.choice(["q", "b", "s"])}
+        else:
+            e = {"kind": "grid", "id": gid, "nasset": "q" if r < 0.6 else "b", "cin": 0,
+                 "xyz": [_rnd(rng, -20, 20) for _ in range(3)], "cout": rng.randint(0, N) if r >= 0.6 else 0}
+            if e["cout"]:
+                infos = _ref_resolve(w["cs"])
+                ct, co, cT = infos[e["cout"]]
+                if ct != 1 and _rho(ct, co, cT, np.array(e["xyz"])) < 0.5:
+                    e["cout"] = 0
+        ents.insert(rng.randint(0, len(ents)), e)
+    part = [i for i, e in enumerate(ents) if e.pop("part", False)]
+    return {"cs": w["cs"], "entries": ents}, part
+
+
+def _pyform_ind(rng, d, wt, ids):
+    """one `DOF_Ind, GRIDS_Ind` pair in one of the accepted Python forms"""
+    if wt is None:
+        dof = rng.choice([d, [d], (d,), np.array([d])])
+    else:
+        dof = rng.choice([[d, wt], (d, wt), np.array([d, wt])])
+    if len(ids) == 1 and rng.random() < 0.6:
+        g = rng.choice([ids[0], np.int64(ids[0])])
+    else:
+        g = rng.choice([list(ids), tuple(ids), np.array(ids)])
+    return dof, g
+
+
+def _plan_rbe3w(ctx, rng, items, kind):
+    """formrbe3 from its own arguments: the Lean model `formrbe3W` gets GRID_dep, DOF_dep, the Ind_List groups
+    (component number, optional weight, ids) and the UM_List pairs as they are, plus the ids of the table rows;
+    the harness does no DOF expansion, no row look-up and no sorting of its own for this stream."""
+    from pyyeti.nastran import n2p
+
+    w0 = _gen_world(rng, N=rng.randint(0, 3), G=rng.randint(4, 6), plain=True)
+    w, part = _with_bystanders(rng, w0)
+    ents = w["entries"]
+    case = _rbe3_case(rng, w, part)
+    if kind == "dep-digit-0":
+        case["ddof"] = rng.choice([10, 120, 1203, 30, 406])
+    ref = _rbe3_ref(w, case)
+    um_kind = kind[3:] if kind.startswith("um-") and kind != "um-not-in-table" else None
+    condmax = 1e6 if um_kind is None else 1e4
+    if not ref["cond"] <= condmax:
+        ctx.skip("rbe3w: cond(rb'Wrb) > %g" % condmax)
+        return
+    if um_kind is not None and not _add_um(rng, w, case, ref, um_kind):
+        ctx.skip("rbe3w: no well-conditioned UM_List of kind %s" % um_kind)
+        return
+    groups = [(d, wt, [ents[i]["id"] for i in grp]) for d, wt, grp in case["groups"]]
+    used = {e["id"] for e in ents}
+    sp_ids = [e["id"] for e in ents if e["kind"] == "sp"]
+    if kind == "ind-not-in-table":
+        ghost = max(used) + rng.randint(1, 50)
+        if rng.random() < 0.5:
+            groups.append((rng.choice([123, 123456, 3]), None, [ghost]))
+        else:
+            j = rng.randrange(len(groups))
+            ids = groups[j][2][:]
+            ids.insert(rng.randint(0, len(ids)), ghost)
+            groups[j] = (groups[j][0], groups[j][1], ids)
+        if sp_ids and rng.random() < 0.5:
+            groups.append((123, 2.0, [rng.choice(sp_ids)]))  # components 1-3 of a scalar point: no such rows
+    elif kind == "spoint-ind":
+        if not sp_ids:
+            ctx.skip("rbe3w: no scalar point in the table")
+            return
+        groups.append((0, None, [rng.choice(sp_ids)]))  # dof 0 of a scalar point is a row of the table
+    elif kind == "digit-gt-6":
+        groups.append((rng.choice([127, 8, 1239, 70]), None, [groups[0][2][0]]))
+    rng.shuffle(groups)
+    um_pairs = None
+    if case.get("um"):
+        um_pairs = [(ents[i]["id"], d) for i, d in case["um"]["list"]]
+    elif kind == "um-not-in-table":
+        # as many m-set DOF as dependent DOF, one of them not a row of the table
+        nd = len(ref["ddof"])
+        dofs = list(ref["ddof"])[: nd - 1]
+        um_pairs = [(ents[i]["id"], c) for i, c in dofs] + [(max(used) + 7, rng.randint(1, 6))]
+        rng.shuffle(um_pairs)
+    Ind_List = []
+    for d, wt, ids in groups:
+        Ind_List += list(_pyform_ind(rng, d, wt, ids))
+    UM_List = None
+    if um_pairs is not None:
+        UM_List = [x for pr in um_pairs for x in pr]
+        if rng.random() < 0.3:
+            UM_List = np.array(UM_List)
+    style = rng.randint(0, 1)
+
+    def impl():
+        uset, _ = _build(w, style, rng)
+        with warnings.catch_warnings():
+            warnings.simplefilter("ignore", RuntimeWarning)
+            try:
+                return n2p.formrbe3(uset, ents[case["dep"]]["id"], case["ddof"], Ind_List, UM_List)
+            except (ValueError, IndexError, np.linalg.LinAlgError) as e:
+                return ("raise", "%s: %s" % (type(e).__name__, str(e)[:80]))
+
+    line = "rbe3w %s %s %d %d %d %s %s" % (
+        _world_line(w), " ".join(str(e["id"]) for e in ents), ents[case["dep"]]["id"], case["ddof"], len(groups),
+        " ".join("%d %d %s %d %s" % (d, 0 if wt is None else 1, f2b(1.0 if wt is None else wt), len(ids),
+                                     " ".join(map(str, ids))) for d, wt, ids in groups),
+        "0" if um_pairs is None else "1 %d %s" % (len(um_pairs), " ".join("%d %d" % pr for pr in um_pairs)))
+    ctx.count("rbe3w:kind-" + kind)
+    if any(e["kind"] == "sp" for e in ents):
+        ctx.count("rbe3w:table-with-spoint")
+    if any(e["kind"] == "grid" and _isq(e) for e in ents):
+        ctx.count("rbe3w:table-with-qset-grid")
+    if any(wt is not None for _, wt, _ in groups):
+        ctx.count("rbe3w:weighted-group")
+    if any(len(ids) == 1 for _, _, ids in groups):
+        ctx.count("rbe3w:single-id-group")
+    items.append(("rbe3w", {"world": w, "style": style, "op": "rbe3w", "case": case, "kind": kind,
+                            "groups": [[d, wt, ids] for d, wt, ids in groups], "um_pairs": um_pairs},
+                  line, impl, None, None, None, None))
 
 
 class _Hang(BaseException):
